@@ -525,6 +525,235 @@ Theorem C16_fish_generate_is_built : forall c d bin b,
 Proof. exact generate_fish_is_built. Qed.
 Print Assumptions C16_fish_generate_is_built.
 (* ---- end fish generator model ---- *)
+(* ---- nushell generator model ---- *)
+(** [Complete/NushellModel.v] is a byte-exact TRANSCRIPTION of clap_complete_nushell/src/lib.rs (all of it; the
+    string written so far is threaded through every function because [append_value_completion_and_help] reads it:
+    [s.lines().last()] decides the padding of the help comment), compared with the real generator's module byte for
+    byte on every run (streams [nushell-model], [nushell-model-names]).  [Complete/NushellProofs.v] proves that it
+    computes a SPECIFICATION in pieces: [NFx b] = text the generator writes itself, [NCm t] = a description text
+    written through single_line_styled_str after "# ".  [node_pieces name n dn sub] is the block of one command:
+    the [nu-complete] definitions, the about comment, [export extern name \[], one line per spelling, "\]". *)
+From ClapModel Require Complete.NushellModel Complete.NushellProofs.
+
+(** [str::lines().last()] of a string that ends in a newline followed by a non-empty [cur] is that of [cur]:
+    the padding of a help comment depends on the line being written only (names, never texts) *)
+Theorem C16_nushell_lines_last : forall s cur,
+  (s = [] \/ exists s', s = s' ++ [10%N]) -> cur <> [] ->
+  NushellModel.lines_last (s ++ cur) = NushellModel.lines_last cur.
+Proof. exact NushellProofs.lines_last_app. Qed.
+Print Assumptions C16_nushell_lines_last.
+
+(** the transcription reaches no panic site (the three [expect]s, the [unreachable!]) and computes the
+    specification, whenever every node has a bin name (what [build] establishes: [C16_build_assigns_bins]) *)
+Theorem C16_nushell_model_is_pieces : forall c d,
+  c_bin c <> None -> bins_built c ->
+  NushellModel.nushell_script c d = Some (NushellProofs.nrender (NushellProofs.nu_pieces c d)).
+Proof. exact NushellProofs.nushell_script_spec. Qed.
+Print Assumptions C16_nushell_model_is_pieces.
+
+Theorem C16_nushell_total : forall c d,
+  c_bin c <> None -> bins_built c -> exists s, NushellModel.nushell_script c d = Some s.
+Proof. exact NushellProofs.nushell_total. Qed.
+Print Assumptions C16_nushell_total.
+
+Theorem C16_nushell_fails_only_without_bin : forall c d,
+  NushellModel.nushell_script c d = None -> c_bin c = None \/ ~ bins_built c.
+Proof. exact NushellProofs.nushell_none_no_bin. Qed.
+Print Assumptions C16_nushell_fails_only_without_bin.
+
+Theorem C16_nushell_deterministic : forall c d s1 s2,
+  NushellModel.nushell_script c d = Some s1 -> NushellModel.nushell_script c d = Some s2 -> s1 = s2.
+Proof. exact NushellProofs.nushell_deterministic. Qed.
+Print Assumptions C16_nushell_deterministic.
+
+(** [generate(Nushell, cmd, bin, buf)] = [set_bin_name] + [Command::build] (tree and texts) + the generator writes
+    a module for EVERY command tree, texts and bin name -- unconditional ([C16_build_total]) *)
+Theorem C16_nushell_generate_total : forall c d bin, exists b,
+  build (set_bin_name c bin) = Some b /\ c_bin b = Some bin /\ bins_built b /\
+  NushellModel.generate_nushell c d bin =
+    Some (NushellProofs.nrender (NushellProofs.nu_pieces b (dbuild (set_bin_name c bin) d))).
+Proof. exact NushellProofs.generate_nushell_total. Qed.
+Print Assumptions C16_nushell_generate_total.
+
+(** ONE [export extern] block per subcommand path: for EVERY path of names or visible aliases, at EVERY depth,
+    the block of the addressed command is a contiguous part of the module; it is declared under the command's
+    own bin name, bare for the root and quoted for a subcommand *)
+Theorem C16_nushell_one_block_per_path : forall c d ws ns n,
+  reach c ws ns n ->
+  exists dn pre post,
+    NushellProofs.nu_pieces c d =
+    pre ++ NushellProofs.node_pieces (NushellProofs.bin_of n) n dn (negb (is_nil ns)) ++ post.
+Proof. exact NushellProofs.nu_pieces_covers. Qed.
+Print Assumptions C16_nushell_one_block_per_path.
+
+(** what a block mentions (all commands [n], names, texts): the [export extern] line; for every named argument
+    (hidden or not) a line starting with every short and every long spelling the accessors return -- [    -s],
+    [    --l] or the first line [    --l0(-s0)] -- followed by the type suffix; a line for every positional; and
+    for every possible value (hidden or not) the [nu-complete] definition named by the [@"nu-complete name id"]
+    reference of the argument's lines, containing the value *)
+Theorem C16_nushell_block_mentions : forall name n dn sub,
+  let blk := NushellProofs.node_pieces name n dn sub in
+  In (NushellProofs.NFx (NushellProofs.extern_line sub name)) blk /\
+  (forall a, In a (c_args n) -> a_is_positional a = false ->
+     (forall shorts s, get_short_and_visible_aliases a = Some shorts -> In s shorts ->
+        exists st, (st = NushellProofs.short_start s \/ exists l, st = NushellProofs.both_start l s) /\
+                   In (NushellProofs.NFx (st ++ NushellProofs.type_suffix a name)) blk) /\
+     (forall longs l, get_long_and_visible_aliases a = Some longs -> In l longs ->
+        exists st, (st = NushellProofs.long_start l \/ exists s, st = NushellProofs.both_start l s) /\
+                   In (NushellProofs.NFx (st ++ NushellProofs.type_suffix a name)) blk)) /\
+  (forall a, In a (c_args n) -> a_is_positional a = true ->
+     In (NushellProofs.NFx (NushellProofs.pos_start a ++ NushellProofs.type_suffix a name)) blk) /\
+  (forall a v, In a (c_args n) -> In v (NushellModel.get_possible_values a) ->
+     NushellProofs.type_suffix a name =
+       [58%N; 32%N] ++ NushellModel.nu_type (a_get_hint a) ++ NushellProofs.complete_ref a name /\
+     exists x y x' y' rest,
+       blk = NushellProofs.NFx (x ++ NushellProofs.defs_bytes a name ++ y) :: rest /\
+       NushellProofs.defs_bytes a name = NushellProofs.def_header a name ++ x' ++ NushellModel.value_word v ++ y').
+Proof. exact NushellProofs.node_pieces_mentions. Qed.
+Print Assumptions C16_nushell_block_mentions.
+
+(** [Arg::get_possible_values] (what nushell reads) is the list of [utils::possible_values] (what the other
+    generators read): every non-hidden possible value of the property is in it *)
+Theorem C16_nushell_possible_values : forall a,
+  NushellModel.get_possible_values a = match possible_values a with Some l => l | None => [] end.
+Proof. exact NushellProofs.get_possible_values_utils. Qed.
+Print Assumptions C16_nushell_possible_values.
+
+(** C16 for nushell: class = every node has a bin name; any depth *)
+Theorem C16_nushell_covers : forall c d ws ns n,
+  c_bin c <> None -> bins_built c -> reach c ws ns n ->
+  exists blk pre post,
+    NushellModel.nushell_script c d = Some (NushellProofs.nrender (pre ++ blk ++ post)) /\
+    NushellProofs.node_mentions (NushellProofs.bin_of n) n (negb (is_nil ns)) blk.
+Proof. exact NushellProofs.nushell_covers. Qed.
+Print Assumptions C16_nushell_covers.
+
+(** class [linked] (bin names as [_build_bin_names_internal] makes them): the block is declared under
+    "bin n1 .. nk", the NAMES of the commands on the path -- also when the path was spelled with aliases *)
+Theorem C16_nushell_covers_linked : forall c d bin ws ns n,
+  c_bin c = Some bin -> linked c -> reach c ws ns n ->
+  exists blk pre post,
+    NushellModel.nushell_script c d = Some (NushellProofs.nrender (pre ++ blk ++ post)) /\
+    NushellProofs.node_mentions (bin ++ join_with [32%N] ns) n (negb (is_nil ns)) blk.
+Proof. exact NushellProofs.nushell_covers_linked. Qed.
+Print Assumptions C16_nushell_covers_linked.
+
+(** the same for the module [generate] writes for ANY user tree: one module, and in it the block of every path
+    of the built tree *)
+Theorem C16_nushell_generate_covers : forall c d bin, exists b s,
+  build (set_bin_name c bin) = Some b /\ NushellModel.generate_nushell c d bin = Some s /\
+  forall ws ns n, reach b ws ns n ->
+    exists blk pre post, s = NushellProofs.nrender (pre ++ blk ++ post) /\
+                         NushellProofs.node_mentions (NushellProofs.bin_of n) n (negb (is_nil ns)) blk.
+Proof. exact NushellProofs.generate_nushell_covers. Qed.
+Print Assumptions C16_nushell_generate_covers.
+
+(** the property's wording in the class [aliases_have_primary]: every short, every long and every visible alias
+    of every named argument starts a line of the block *)
+Theorem C16_nushell_mentions_all_spellings : forall name n sub blk,
+  NushellProofs.node_mentions name n sub blk -> aliases_have_primary n ->
+  forall a, In a (c_args n) -> a_is_positional a = false ->
+    (forall s, a_short a = Some s \/ In (s, true) (a_short_aliases a) ->
+       exists st, NushellProofs.mentions_short s st /\
+                  In (NushellProofs.NFx (st ++ NushellProofs.type_suffix a name)) blk) /\
+    (forall l, a_long a = Some l \/ In (l, true) (a_aliases a) ->
+       exists st, NushellProofs.mentions_long l st /\
+                  In (NushellProofs.NFx (st ++ NushellProofs.type_suffix a name)) blk).
+Proof. exact NushellProofs.node_mentions_all_spellings. Qed.
+Print Assumptions C16_nushell_mentions_all_spellings.
+
+(** a piece of a block is a contiguous part of the bytes of the module *)
+Theorem C16_nushell_mention_in_text : forall pre blk post p,
+  In p blk ->
+  exists x y, NushellProofs.nrender (pre ++ blk ++ post) = x ++ NushellProofs.nrender1 p ++ y.
+Proof. exact NushellProofs.mention_in_text. Qed.
+Print Assumptions C16_nushell_mention_in_text.
+
+(** the hypotheses of [C16_nushell_covers_linked] hold for a linked three-level tree (hyphenated name, path through
+    a visible alias) *)
+Theorem C16_nushell_covers_nonvacuous :
+  c_bin ex_root = Some [112%N] /\ linked ex_root /\
+  reach ex_root [[120%N]; [99%N]] [[97%N; 45%N; 98%N]; [99%N]] ex_leaf.
+Proof. exact NushellProofs.nushell_covers_linked_hyps. Qed.
+Print Assumptions C16_nushell_covers_nonvacuous.
+
+(** [generate] on a user tree, evaluated: root [p], subcommand [a-b] (visible alias [x], hidden alias [y]) with the
+    subcommand [c] carrying the option -o/--opt with the visible short alias x, the visible alias --al, the hidden
+    alias --hi and the values v1, v2 (hidden).  The node is reached through the alias; the module declares it by
+    NAMES, has the three lines and the definition with both values, nothing for the hidden alias.
+    The [ex_*] byte strings (the bin path, the export extern line, the three option lines, the def line, the value
+    list, the hidden spelling) are written out as string literals beside the example in NushellProofs.v *)
+Theorem C16_nushell_generate_example :
+  exists b n s,
+    build (set_bin_name ex_fish_root [112%N]) = Some b /\
+    reach b [[120%N]; [99%N]] [[97%N; 45%N; 98%N]; [99%N]] n /\ In ex_opt (c_args n) /\ aliases_have_primary n /\
+    NushellProofs.bin_of n = NushellProofs.ex_bin /\
+    NushellModel.generate_nushell ex_fish_root cd0 [112%N] = Some s /\
+    NushellModel.has_infix s NushellProofs.ex_extern = true /\
+    NushellModel.has_infix s NushellProofs.ex_line_both = true /\
+    NushellModel.has_infix s NushellProofs.ex_line_alias = true /\
+    NushellModel.has_infix s NushellProofs.ex_line_short_alias = true /\
+    NushellModel.has_infix s NushellProofs.ex_def = true /\
+    NushellModel.has_infix s NushellProofs.ex_values = true /\
+    NushellModel.has_infix s NushellProofs.ex_hidden_alias = false.
+Proof. exact NushellProofs.generate_nushell_example. Qed.
+Print Assumptions C16_nushell_generate_example.
+
+(** class boundary = finding [alias-without-primary]: a visible short alias of an option without a short starts
+    no line; the spelling occurs nowhere in the module *)
+Theorem C16_nushell_alias_without_primary_refuted :
+  exists c d bin s o x,
+    NushellModel.generate_nushell c d bin = Some s /\ In o (c_args c) /\ a_is_positional o = false /\
+    In (x, true) (a_short_aliases o) /\ NushellModel.has_infix s ([45%N] ++ x) = false.
+Proof. exact NushellProofs.nushell_alias_without_primary_refuted. Qed.
+Print Assumptions C16_nushell_alias_without_primary_refuted.
+
+(** class boundary = finding [nushell-subcommand-aliases]: the block of a subcommand is declared under its NAME
+    path only; a visible alias of the subcommand occurs nowhere in the module *)
+Theorem C16_nushell_subcommand_alias_refuted :
+  exists c d bin s sc w,
+    NushellModel.generate_nushell c d bin = Some s /\ In sc (c_subs c) /\ In (w, true) (c_aliases sc) /\
+    NushellModel.has_infix s NushellProofs.ex_extern_sub = true /\ NushellModel.has_infix s w = false.
+Proof. exact NushellProofs.nushell_subcommand_alias_refuted. Qed.
+Print Assumptions C16_nushell_subcommand_alias_refuted.
+(** EXACTLY one block per command: the module is the header, the root's block (bare name), then one block
+    ([block_of q] = the block of the command [fst q], quoted name) for every proper descendant of the root -- the list
+    [subs_blocks c d] enumerates the descendants in pre-order, each tree position once -- then the trailer.  Every tree. *)
+Theorem C16_nushell_exactly_one_block_per_command : forall c d,
+  NushellProofs.nu_pieces c d =
+    NushellProofs.NFx NushellProofs.module_open :: NushellProofs.node_pieces (NushellProofs.bin_of c) c d false
+    ++ flat_map NushellProofs.block_of (NushellProofs.subs_blocks c d) ++ [NushellProofs.NFx NushellProofs.module_close] /\
+  map fst (NushellProofs.subs_blocks c d) = flat_map NushellProofs.nodes (c_subs c) /\
+  (forall n, In n (flat_map NushellProofs.nodes (c_subs c)) <-> desc c n).
+Proof. exact NushellProofs.nu_pieces_blocks. Qed.
+Print Assumptions C16_nushell_exactly_one_block_per_command.
+(** [Command::build] makes the bin names [linked] (every subcommand's bin name = its parent's, a blank, its own name)
+    whenever no subcommand of the user's tree carries a bin name of its own ([BuildLinked.nb]: a Command has none before
+    it is built) and the bin name given to [generate] is not empty.  Closes the round-1 remark "build => linked: not
+    proved": [linked] is the hypothesis of [C16_bash_table], [C16_bash_complete], [C16_nushell_covers_linked] *)
+From ClapModel Require Complete.BuildLinked.
+Theorem C16_build_linked : forall c bin b,
+  BuildLinked.nb c = true -> bin <> [] -> build (set_bin_name c bin) = Some b -> c_bin b = Some bin /\ linked b.
+Proof. exact BuildLinked.build_linked. Qed.
+Print Assumptions C16_build_linked.
+
+Theorem C16_build_linked_nonvacuous :
+  BuildLinked.nb example_tree = true /\
+  exists b, build (set_bin_name example_tree [112%N]) = Some b /\ linked b /\ c_subs b <> [].
+Proof. exact BuildLinked.build_linked_nonvacuous. Qed.
+Print Assumptions C16_build_linked_nonvacuous.
+
+(** so, for such a user tree, the module [generate] writes declares every path of the built tree under
+    "bin n1 .. nk" -- the NAMES on the path, whichever aliases spelled it *)
+Theorem C16_nushell_generate_covers_named : forall c d bin,
+  BuildLinked.nb c = true -> bin <> [] -> exists b s,
+  build (set_bin_name c bin) = Some b /\ NushellModel.generate_nushell c d bin = Some s /\
+  forall ws ns n, reach b ws ns n ->
+    exists blk pre post, s = NushellProofs.nrender (pre ++ blk ++ post) /\
+                         NushellProofs.node_mentions (bin ++ join_with [32%N] ns) n (negb (is_nil ns)) blk.
+Proof. exact NushellProofs.generate_nushell_covers_named. Qed.
+Print Assumptions C16_nushell_generate_covers_named.
+(* ---- end nushell generator model ---- *)
 
 (* ---- zsh generator model ---- *)
 (** [Complete/ZshModel.v] is a byte-exact model of clap_complete/src/aot/shells/zsh.rs (compared with the real
